@@ -74,6 +74,14 @@ PROPS['C05'] = dict(
     assumptions=E_ASSUME,
 )
 
+def sbatch_sig(e):
+    if e.get('ev') == 'sbatch':
+        return ('sbatch', e.get('kind'), e.get('late'), e.get('effect'))
+    return None
+# several goroutines on one batch: a late call queued around the Commit (forced with a blocking I/O hook)
+PROPS['C05']['traces'].append(dict(profile='sharedbatch', spec='LinTrace', enforce=['sbatch'], sig=sbatch_sig, deterministic=False,
+                                   quick_seeds=1, thorough_seeds=2))
+
 PROPS['C17'] = dict(
     level='model_checking',
     mc=[xixi_mc('MC_Stat', ['AccountingExact', 'FileSizeRespected', 'MapSemantics'],
